@@ -140,6 +140,91 @@ Theorem C06_network_no_lost_wakeup :
 Proof. intros nt boxes threads sched st Ht Hm. apply Wn_reachable; auto. Qed.
 Print Assumptions C06_network_no_lost_wakeup.
 
+(* ---------- all schedules of concrete chains and fan-outs, every failure position (verified exhaustive
+   exploration of the reachable state set, Proof/MailboxFailReach.v + Proof/MailboxFailInstances.v) ---------- *)
+From SV Require Import Proof.MailboxFailReach Proof.MailboxFailInstances Proof.MailboxFailInstChain
+  Proof.MailboxFailInstFan Proof.MailboxFailInstF2.
+
+(* chainA: 2 stages, saver on the target, 1 chunk, max_messages 1, eager (threads 0,1 stages; 2 saver);
+   chainS: 2 stages, savers on the intermediate output (2) and on the target (3), 1 chunk, eager: failing savers;
+   chainB: 2 stages, 2 chunks, lazy, through get_iter, max_messages 2/1, saver on the target (threads 0,1; 2 saver);
+   chainC: 3 stages, 1 chunk, eager and lazy.  EVERY thread x EVERY position (chunk or "at the end"), EVERY schedule:
+   all threads finish, the caller holds the injected exception, every saver is closed and marked. *)
+Theorem C06_failure_reaches_caller_chain_partial :
+  (forall ft fp, ft < 3 -> fp <= 1 ->
+     failure_reaches_caller (chain_net chainA true (Some (ft, fp, MailboxFailInstances.boom)) None)
+       (chain_init chainA true (Some (ft, fp, MailboxFailInstances.boom)) None) (chain_main chainA) 1 MailboxFailInstances.boom) /\
+  (forall ft fp, (ft = 2 \/ ft = 3) -> fp <= 1 ->
+     failure_reaches_caller (chain_net chainS true (Some (ft, fp, MailboxFailInstances.boom)) None)
+       (chain_init chainS true (Some (ft, fp, MailboxFailInstances.boom)) None) (chain_main chainS) 1 MailboxFailInstances.boom) /\
+  (forall ft fp, ft < 3 -> fp <= 2 ->
+     failure_reaches_caller (chain_net chainB true (Some (ft, fp, MailboxFailInstances.boom)) None)
+       (chain_init chainB true (Some (ft, fp, MailboxFailInstances.boom)) None) (chain_main chainB) 2 MailboxFailInstances.boom) /\
+  (forall lz ft fp, ft < 3 -> fp <= 1 ->
+     failure_reaches_caller (chain_net (chainC lz) true (Some (ft, fp, MailboxFailInstances.boom)) None)
+       (chain_init (chainC lz) true (Some (ft, fp, MailboxFailInstances.boom)) None) (chain_main (chainC lz)) 1 MailboxFailInstances.boom).
+Proof.
+  split; [|split; [|split]]; intros.
+  - apply chainA_failure_reaches_caller; auto.
+  - apply chainS_saver_failure_reaches_caller; auto.
+  - apply chainB_failure_reaches_caller; auto.
+  - apply chainC_failure_reaches_caller; auto.
+Qed.
+Print Assumptions C06_failure_reaches_caller_chain_partial.
+
+(* one-level fan-out (source 0, multi-output plugin 1, divide_outputs 2, saver of the side output 3), eager and lazy:
+   fanD: target first in `provides`; fanE: side output first (the configuration on which the code before repair F3
+   hangs); fanF: 2 chunks, max_messages 2, the saver of the side output fails at chunk 0 (the configuration on which
+   the code before repair F2 returns StopIteration).  With the repairs: every schedule delivers the exception. *)
+Theorem C06_failure_reaches_caller_fanout_partial :
+  (forall lz ft fp, (ft = 0 \/ ft = 1 \/ ft = 3) -> fp <= 1 ->
+     failure_reaches_caller (fan_net (fanD lz) true (Some (ft, fp, MailboxFailInstances.boom)) None)
+       (fan_init (fanD lz) true (Some (ft, fp, MailboxFailInstances.boom)) None) (fan_main (fanD lz)) 1 MailboxFailInstances.boom) /\
+  (forall lz ft fp, (ft = 0 \/ ft = 1 \/ ft = 3) -> fp <= 1 ->
+     failure_reaches_caller (fan_net (fanE lz) true (Some (ft, fp, MailboxFailInstances.boom)) None)
+       (fan_init (fanE lz) true (Some (ft, fp, MailboxFailInstances.boom)) None) (fan_main (fanE lz)) 1 MailboxFailInstances.boom) /\
+  failure_reaches_caller (fan_net fanF true (Some (3, 0, MailboxFailInstances.boom)) None)
+    (fan_init fanF true (Some (3, 0, MailboxFailInstances.boom)) None) (fan_main fanF) 2 MailboxFailInstances.boom.
+Proof.
+  split; [|split]; intros.
+  - apply fanD_failure_reaches_caller; auto.
+  - apply fanE_failure_reaches_caller; auto.
+  - apply fanF_saver_failure_reaches_caller.
+Qed.
+Print Assumptions C06_failure_reaches_caller_fanout_partial.
+
+(* the consumer raises / closes the iterator after chunk k: all threads stop on every schedule; close() of the
+   processor's own iterator returns (GeneratorExit re-raised), through get_iter the caller sees OutsideException *)
+Theorem C06_consumer_close_stops_all_partial :
+  failure_reaches_caller (chain_net chainA true None (Some (0, false, MailboxFailInstances.cexc)))
+    (chain_init chainA true None (Some (0, false, MailboxFailInstances.cexc))) (chain_main chainA) 1 MailboxFailInstances.cexc /\
+  failure_reaches_caller (chain_net chainA true None (Some (0, true, MailboxFailInstances.cexc)))
+    (chain_init chainA true None (Some (0, true, MailboxFailInstances.cexc))) (chain_main chainA) 1 C_GENEXIT /\
+  (forall k, k < 2 ->
+     failure_reaches_caller (chain_net chainB true None (Some (k, false, MailboxFailInstances.cexc)))
+       (chain_init chainB true None (Some (k, false, MailboxFailInstances.cexc))) (chain_main chainB) 2 MailboxFailInstances.cexc) /\
+  (forall k, k < 2 ->
+     failure_reaches_caller (chain_net chainB true None (Some (k, true, MailboxFailInstances.cexc)))
+       (chain_init chainB true None (Some (k, true, MailboxFailInstances.cexc))) (chain_main chainB) 2 C_OUTSIDE).
+Proof.
+  split; [|split; [|split]]; intros.
+  - apply chainA_consumer_exception.
+  - apply chainA_consumer_close.
+  - apply chainB_consumer_exception; auto.
+  - apply chainB_consumer_close; auto.
+Qed.
+Print Assumptions C06_consumer_close_stops_all_partial.
+
+(* without failures every schedule ends with all chunks at the caller, in order, and in every saver *)
+Theorem C06_no_failure_terminates_partial :
+  completes (chain_net chainA true None None) (chain_init chainA true None None) (chain_main chainA) 1 /\
+  completes (chain_net chainB true None None) (chain_init chainB true None None) (chain_main chainB) 2 /\
+  (forall lz, completes (fan_net (fanD lz) true None None) (fan_init (fanD lz) true None None) (fan_main (fanD lz)) 1).
+Proof.
+  split; [|split]; [apply chainA_completes | apply chainB_completes | intros; apply fanD_completes].
+Qed.
+Print Assumptions C06_no_failure_terminates_partial.
+
 (* ---------- full statements (for the repaired code, fx = true) ---------- *)
 
 (* chains of any length, any capacities >= 1, lazy or eager, any number of savers per mailbox: a failure at any
